@@ -16,6 +16,8 @@ import Mathlib.Tactic.Ring
 import Mathlib.Tactic.Linarith
 import Mathlib.Analysis.SpecialFunctions.Exp
 import BB.Gen.KReal
+import BB.Gen.K
+import BB.Model.Forge
 
 namespace BB.C02
 open BB.Gen.Real
@@ -208,5 +210,261 @@ theorem gsc_le_peak (ampl sigma mu offset SR npts : ℝ) (k : ℕ) (hSR : SR ≠
 
 /-- waituntil is all zeros -/
 theorem waituntil_zero (dummy SR npts : ℝ) (k : ℕ) : waituntil dummy SR npts k = 0 := rfl
+
+/-! ## round 8
+
+### bridge: the model's rational evaluator of a ramp / wait block is the real closed form -/
+
+/-- the kernel the executable model evaluates ramp blocks with (`BB.Gen.ramp`, over ℚ, generated
+    from the same Python body) is, cast to ℝ, the kernel the theorems of this file are about -/
+theorem ramp_bridge (a b sr n : ℚ) (k : ℕ) :
+    ((BB.Gen.ramp a b sr n k : ℚ) : ℝ) = ramp (a : ℝ) (b : ℝ) (sr : ℝ) (n : ℝ) k := by
+  unfold BB.Gen.ramp ramp
+  push_cast
+  rfl
+
+theorem waituntil_bridge (d sr n : ℚ) (k : ℕ) :
+    ((BB.Gen.waituntil d sr n k : ℚ) : ℝ) = waituntil (d : ℝ) (sr : ℝ) (n : ℝ) k := by
+  unfold BB.Gen.waituntil waituntil
+  simp
+
+/-- **ramp block of the model** (`Blk.eval?`, what `Element.getArrays` / `Wave.eval?` evaluate a
+    forged ramp segment with): exactly `n` samples, sample `k` is — as a real number — the closed
+    form `start + (stop − start)·k/n` -/
+theorem eval_ramp_block (fn : BB.Fn) (hf : fn.shape = .ramp) (a b sr : ℚ) (n : ℕ) (hsr : sr ≠ 0) (hn : n ≠ 0) :
+    ∃ w, (BB.Blk.call fn [.num a, .num b] sr n).eval? = some w ∧ w.length = n ∧
+      ∀ k, k < n → ∃ q, w[k]? = some q ∧ (q : ℝ) = ramp a b sr n k ∧
+        (q : ℝ) = (a : ℝ) + ((b : ℝ) - a) * ((k : ℝ) / n) := by
+  refine ⟨(List.range n).map (fun k => BB.Gen.ramp a b sr ((n : ℤ) : ℚ) k), ?_, by simp, fun k hk => ?_⟩
+  · simp [BB.Blk.eval?, hf]
+  · refine ⟨BB.Gen.ramp a b sr ((n : ℤ) : ℚ) k, by simp [hk], ?_, ?_⟩
+    · rw [ramp_bridge]; push_cast; rfl
+    · rw [ramp_bridge]
+      have h1 : ((sr : ℚ) : ℝ) ≠ 0 := by exact_mod_cast hsr
+      have h2 : ((((n : ℤ) : ℚ)) : ℝ) ≠ 0 := by
+        have : (n : ℝ) ≠ 0 := by exact_mod_cast hn
+        simpa using this
+      rw [ramp_closed _ _ _ _ _ h1 h2]
+      push_cast
+      rfl
+
+example : (BB.Blk.call ⟨false, "ramp", "ramp", [], .ramp⟩ [.num 0, .num 1] 10 4).eval? =
+    some [0, 1/4, 1/2, 3/4] := by decide +kernel
+
+/-- **wait block of the model**: exactly `n` zeros -/
+theorem eval_zeros_block (fn : BB.Fn) (hf : fn.shape = .zeros) (args : List BB.Val) (sr : ℚ) (n : ℕ) :
+    (BB.Blk.call fn args sr n).eval? = some (List.replicate n 0) := by
+  have : (BB.Blk.call fn args sr n).eval? =
+      some ((List.range n).map (fun k => BB.Gen.waituntil 0 sr ((n : ℤ) : ℚ) k)) := by
+    unfold BB.Blk.eval?
+    simp only [hf]
+  rw [this]
+  congr 1
+  apply List.ext_getElem <;> simp [BB.Gen.waituntil]
+
+/-! ### the sample list: exactly `n` points at `t_k = k/SR`, end point excluded -/
+
+/-- `time = linspace(0, n/SR, n, endpoint=False)` -/
+noncomputable def timeAxis (SR : ℝ) (n : ℕ) : List ℝ := (List.range n).map (fun (k : ℕ) => (k : ℝ) / SR)
+
+/-- the time axis has exactly `n` points, the `k`-th is `k/SR`, it starts at 0, consecutive points
+    are `1/SR` apart and every point lies strictly before the end `n/SR` -/
+theorem timeAxis_spec (SR : ℝ) (n : ℕ) (hSR : 0 < SR) :
+    (timeAxis SR n).length = n ∧
+    (∀ k, k < n → (timeAxis SR n)[k]? = some ((k : ℝ) / SR)) ∧
+    (∀ t ∈ timeAxis SR n, 0 ≤ t ∧ t < (n : ℝ) / SR) := by
+  refine ⟨by simp [timeAxis], fun k hk => by simp [timeAxis, hk], fun t ht => ?_⟩
+  simp only [timeAxis, List.mem_map, List.mem_range] at ht
+  obtain ⟨k, hk, rfl⟩ := ht
+  exact ⟨by positivity, time_before_end SR n k hSR hk⟩
+
+/-- ramp: the `n` samples are `start + slope·t` on the time axis, `slope = (stop−start)/(n/SR)` -/
+theorem ramp_samples (start stop SR : ℝ) (n : ℕ) (hSR : SR ≠ 0) (hn : n ≠ 0) :
+    (List.range n).map (ramp start stop SR n) =
+      (timeAxis SR n).map (fun t => start + (stop - start) / ((n : ℝ) / SR) * t) := by
+  have hn2 : (n : ℝ) ≠ 0 := by exact_mod_cast hn
+  simp only [timeAxis, List.map_map]
+  exact List.map_congr_left (fun k _ => ramp_time start stop SR n k hSR hn2)
+
+/-- sine: the `n` samples are `ampl·sin(2π·freq·t + phase) + off` on the time axis -/
+theorem sine_samples (freq ampl off phase SR : ℝ) (n : ℕ) (hSR : SR ≠ 0) (hn : n ≠ 0) :
+    (List.range n).map (sine freq ampl off phase SR n) =
+      (timeAxis SR n).map (fun t => ampl * Real.sin (2 * Real.pi * freq * t + phase) + off) := by
+  have hn2 : (n : ℝ) ≠ 0 := by exact_mod_cast hn
+  simp only [timeAxis, List.map_map]
+  exact List.map_congr_left (fun k _ => sine_closed freq ampl off phase SR n k hSR hn2)
+
+/-- gaussian: the `n` samples are `ampl·exp(−(t − μ − dur/2)²/(2σ²)) + offset` on the time axis -/
+theorem gaussian_samples (ampl sigma mu offset SR : ℝ) (n : ℕ) (hSR : SR ≠ 0) (hn : n ≠ 0) :
+    (List.range n).map (gaussian ampl sigma mu offset SR n) =
+      (timeAxis SR n).map (fun t => ampl * Real.exp (-((t - mu - (n : ℝ) / SR / 2) ^ 2) / (2 * sigma ^ 2)) + offset) := by
+  have hn2 : (n : ℝ) ≠ 0 := by exact_mod_cast hn
+  simp only [timeAxis, List.map_map]
+  exact List.map_congr_left (fun k _ => gaussian_closed ampl sigma mu offset SR n k hSR hn2)
+
+/-- gaussian_smooth_cutoff: the `n` samples are `ampl·(g(t) − g(0))/(1 − g(0)) + offset` -/
+theorem gsc_samples (ampl sigma mu offset SR : ℝ) (n : ℕ) (hSR : SR ≠ 0) (hn : n ≠ 0) :
+    (List.range n).map (gaussian_smooth_cutoff ampl sigma mu offset SR n) =
+      (timeAxis SR n).map (fun t =>
+        ampl * (Real.exp (-((t - mu - (n : ℝ) / SR / 2) ^ 2) / (2 * sigma ^ 2)) - e0 sigma mu SR n)
+          * (1 / (1 - e0 sigma mu SR n)) + offset) := by
+  have hn2 : (n : ℝ) ≠ 0 := by exact_mod_cast hn
+  simp only [timeAxis, List.map_map]
+  exact List.map_congr_left (fun k _ => gsc_closed ampl sigma mu offset SR n k hSR hn2)
+
+/-- waituntil: `n` zeros -/
+theorem waituntil_samples (dummy SR : ℝ) (n : ℕ) :
+    (List.range n).map (waituntil dummy SR n) = List.replicate n 0 := by
+  apply List.ext_getElem <;> simp [waituntil]
+
+/-- every shape returns exactly the requested number of points -/
+theorem samples_length (f : ℕ → ℝ) (n : ℕ) : ((List.range n).map f).length = n := by simp
+
+example : (2 : ℝ) ≠ 0 ∧ (3 : ℕ) ≠ 0 := ⟨by norm_num, by decide⟩
+
+/-! ### division by zero: what Lean's `x / 0 = 0` would hide -/
+
+/-- **σ = 0 is outside the theorems' domain.**  numpy evaluates `−(t−μ−c)²/(2·0²)` to `−inf`
+    (`nan` on the centre), so `gaussian(…, sigma=0)` is `offset` (resp. `nan`); Lean's `x/0 = 0`
+    makes the kernel the constant `ampl + offset` instead — an artefact, not a statement about the
+    code.  All value theorems below therefore carry `σ ≠ 0`. -/
+theorem gaussian_sigma_zero_artifact (ampl mu offset SR npts : ℝ) (k : ℕ) :
+    gaussian ampl 0 mu offset SR npts k = ampl + offset := by
+  unfold gaussian; simp
+
+/-- the normalisation of `gaussian_smooth_cutoff` divides by `1 − g(0)`; `g(0) = 1` exactly when
+    the peak sits on `t = 0` (for `σ ≠ 0`) … -/
+theorem e0_eq_one_iff (sigma mu SR npts : ℝ) (hs : sigma ≠ 0) :
+    e0 sigma mu SR npts = 1 ↔ mu + npts / SR / 2 = 0 := by
+  constructor
+  · intro h
+    by_contra hc
+    exact (ne_of_lt (e0_lt_one sigma mu SR npts hs hc)) h
+  · intro h
+    unfold e0
+    have : (0 : ℝ) - mu - npts / SR / 2 = 0 := by linarith
+    rw [this]; simp
+
+/-- … and then numpy computes `ampl·0·(1/0) + offset = nan` for every sample, while Lean's
+    `1/0 = 0` gives the constant `offset` — an artefact.  (Also for `σ = 0`, where Lean has
+    `g(0) = exp(0) = 1`.) -/
+theorem gsc_e0_one_artifact (ampl sigma mu offset SR npts : ℝ) (k : ℕ) (hSR : SR ≠ 0) (hn : npts ≠ 0)
+    (h : e0 sigma mu SR npts = 1) : gaussian_smooth_cutoff ampl sigma mu offset SR npts k = offset := by
+  rw [gsc_closed _ _ _ _ _ _ _ hSR hn, h]; simp
+
+theorem e0_sigma_zero (mu SR npts : ℝ) : e0 0 mu SR npts = 1 := by unfold e0; simp
+
+/-- **`gaussian_smooth_cutoff` starts exactly at `offset`**, stated with the guards under which
+    the code divides by non-zero numbers only: `σ ≠ 0` and the peak not on `t = 0` -/
+theorem gsc_first_guarded (ampl sigma mu offset SR npts : ℝ) (hs : sigma ≠ 0) (hc : mu + npts / SR / 2 ≠ 0) :
+    2 * sigma ^ 2 ≠ 0 ∧ 1 - e0 sigma mu SR npts ≠ 0 ∧
+      gaussian_smooth_cutoff ampl sigma mu offset SR npts 0 = offset := by
+  refine ⟨by positivity, ?_, gsc_first ampl sigma mu offset SR npts⟩
+  have := e0_lt_one sigma mu SR npts hs hc
+  linarith
+
+example : (1 : ℝ) ≠ 0 ∧ (0 : ℝ) + 4 / 2 / 2 ≠ 0 := by norm_num
+
+/-! ### gaussian: two-sided bound for either sign of the amplitude; where the peak is attained -/
+
+theorem bare_le_one (d sigma : ℝ) : Real.exp (-(d ^ 2) / (2 * sigma ^ 2)) ≤ 1 := by
+  rw [Real.exp_le_one_iff]
+  apply div_nonpos_of_nonpos_of_nonneg
+  · have := sq_nonneg d; linarith
+  · have := sq_nonneg sigma; linarith
+
+/-- for `σ ≠ 0` the bare Gaussian is 1 exactly on the centre -/
+theorem bare_eq_one_iff (d sigma : ℝ) (hs : sigma ≠ 0) : Real.exp (-(d ^ 2) / (2 * sigma ^ 2)) = 1 ↔ d = 0 := by
+  have hpos : 0 < 2 * sigma ^ 2 := by positivity
+  rw [Real.exp_eq_one_iff, div_eq_zero_iff]
+  constructor
+  · rintro (h | h)
+    · have : d ^ 2 = 0 := by linarith
+      exact pow_eq_zero_iff (by norm_num) |>.mp this
+    · exact absurd h hpos.ne'
+  · intro h; left; rw [h]; simp
+
+/-- for a non-positive amplitude the "peak" `ampl + offset` is a **lower** bound and `offset` an
+    upper bound -/
+theorem gaussian_ge_peak (ampl sigma mu offset SR npts : ℝ) (k : ℕ) (hSR : SR ≠ 0) (hn : npts ≠ 0) (ha : ampl ≤ 0) :
+    ampl + offset ≤ gaussian ampl sigma mu offset SR npts k ∧ gaussian ampl sigma mu offset SR npts k ≤ offset := by
+  rw [gaussian_closed _ _ _ _ _ _ _ hSR hn]
+  have hle := bare_le_one ((k : ℝ) / SR - mu - npts / SR / 2) sigma
+  have hpos := Real.exp_pos (-((k / SR - mu - npts / SR / 2) ^ 2) / (2 * sigma ^ 2))
+  constructor
+  · nlinarith
+  · nlinarith
+
+/-- either sign: every sample lies between `offset` and `ampl + offset` -/
+theorem gaussian_abs_bound (ampl sigma mu offset SR npts : ℝ) (k : ℕ) (hSR : SR ≠ 0) (hn : npts ≠ 0) :
+    |gaussian ampl sigma mu offset SR npts k - offset| ≤ |ampl| := by
+  rw [gaussian_closed _ _ _ _ _ _ _ hSR hn]
+  have hle := bare_le_one ((k : ℝ) / SR - mu - npts / SR / 2) sigma
+  have hpos := Real.exp_pos (-((k / SR - mu - npts / SR / 2) ^ 2) / (2 * sigma ^ 2))
+  simp only [add_sub_cancel_right, abs_mul, abs_of_pos hpos]
+  exact mul_le_of_le_one_right (abs_nonneg _) hle
+
+/-- **the peak value is attained exactly on the centre**: for `σ ≠ 0`, `ampl ≠ 0` sample `k`
+    equals `ampl + offset` iff `t_k = dur/2 + μ` (so a mis-centred Gaussian never shows the peak
+    value at that sample, and if no sample sits on the centre the peak value is not attained) -/
+theorem gaussian_peak_iff (ampl sigma mu offset SR npts : ℝ) (k : ℕ) (hSR : SR ≠ 0) (hn : npts ≠ 0)
+    (hs : sigma ≠ 0) (ha : ampl ≠ 0) :
+    gaussian ampl sigma mu offset SR npts k = ampl + offset ↔ (k : ℝ) / SR = npts / SR / 2 + mu := by
+  rw [gaussian_closed _ _ _ _ _ _ _ hSR hn]
+  constructor
+  · intro h
+    have h1 : ampl * (Real.exp (-((k / SR - mu - npts / SR / 2) ^ 2) / (2 * sigma ^ 2)) - 1) = 0 := by
+      have h0 := add_right_cancel h
+      rw [mul_sub, mul_one, sub_eq_zero]
+      exact h0
+    rcases mul_eq_zero.mp h1 with h2 | h2
+    · exact absurd h2 ha
+    · have := (bare_eq_one_iff _ sigma hs).mp (sub_eq_zero.mp h2)
+      linarith
+  · intro h
+    have : (k : ℝ) / SR - mu - npts / SR / 2 = 0 := by linarith
+    rw [this]; simp
+
+example : ((2 : ℕ) : ℝ) / 1 = 4 / 1 / 2 + 0 := by norm_num
+
+/-! ### gaussian_smooth_cutoff: lower bound for a non-positive amplitude; where the peak is attained -/
+
+/-- for a non-positive amplitude no sample goes below `ampl + offset` -/
+theorem gsc_ge_peak (ampl sigma mu offset SR npts : ℝ) (k : ℕ) (hSR : SR ≠ 0) (hn : npts ≠ 0) (ha : ampl ≤ 0)
+    (hlt : e0 sigma mu SR npts < 1) :
+    ampl + offset ≤ gaussian_smooth_cutoff ampl sigma mu offset SR npts k := by
+  rw [gsc_closed _ _ _ _ _ _ _ hSR hn]
+  have hpos : 0 < 1 - e0 sigma mu SR npts := by linarith
+  have hle := bare_le_one ((k : ℝ) / SR - mu - npts / SR / 2) sigma
+  have h2 : (Real.exp (-((k / SR - mu - npts / SR / 2) ^ 2) / (2 * sigma ^ 2)) - e0 sigma mu SR npts) * (1 / (1 - e0 sigma mu SR npts)) ≤ 1 := by
+    rw [mul_one_div, div_le_one hpos]; linarith
+  have := mul_le_mul_of_nonpos_left h2 ha
+  nlinarith [this]
+
+/-- **the peak value is attained exactly on the centre**: for `σ ≠ 0`, `ampl ≠ 0` and the centre
+    not on `t = 0`, sample `k` equals `ampl + offset` iff `t_k = dur/2 + μ` -/
+theorem gsc_peak_iff (ampl sigma mu offset SR npts : ℝ) (k : ℕ) (hSR : SR ≠ 0) (hn : npts ≠ 0)
+    (hs : sigma ≠ 0) (ha : ampl ≠ 0) (hc : mu + npts / SR / 2 ≠ 0) :
+    gaussian_smooth_cutoff ampl sigma mu offset SR npts k = ampl + offset ↔ (k : ℝ) / SR = npts / SR / 2 + mu := by
+  have hlt := e0_lt_one sigma mu SR npts hs hc
+  constructor
+  · intro h
+    rw [gsc_closed _ _ _ _ _ _ _ hSR hn] at h
+    have h1 : (1 : ℝ) - e0 sigma mu SR npts ≠ 0 := by linarith
+    have h3 : ampl * ((Real.exp (-((k / SR - mu - npts / SR / 2) ^ 2) / (2 * sigma ^ 2)) - e0 sigma mu SR npts)
+        * (1 / (1 - e0 sigma mu SR npts)) - 1) = 0 := by
+      have h2 := add_right_cancel h
+      rw [mul_sub, mul_one, sub_eq_zero, ← mul_assoc]
+      exact h2
+    rcases mul_eq_zero.mp h3 with h4 | h4
+    · exact absurd h4 ha
+    · have h5 : Real.exp (-((k / SR - mu - npts / SR / 2) ^ 2) / (2 * sigma ^ 2)) = 1 := by
+        have h6 := sub_eq_zero.mp h4
+        rw [mul_one_div, div_eq_one_iff_eq h1] at h6
+        linarith
+      have := (bare_eq_one_iff _ sigma hs).mp h5
+      linarith
+  · intro h
+    exact gsc_peak ampl sigma mu offset SR npts k hSR hn h (ne_of_lt hlt)
 
 end BB.C02
